@@ -225,6 +225,8 @@ type SDn4NoSh = St<4, false, true, true, false>;
 inst!(grow_up1_k1, unwind 3, ob_realloc, LogAlloc, SUp1, 1, 64, Op::Grow, 8, 12, false, 0);
 inst!(grow_dn1_k1, unwind 3, ob_realloc, LogAlloc, SDn1, 1, 64, Op::Grow, 8, 12, false, 0);
 inst!(grow_dn8_k1, unwind 3, ob_realloc, LogAlloc, SDn8, 1, 64, Op::Grow, 8, 12, false, 0);
+inst!(grow_up8_k1, unwind 3, ob_realloc, LogAlloc, SUp8, 1, 64, Op::Grow, 8, 12, false, 0);
+inst!(shrink_up8_k1, unwind 3, ob_realloc, LogAlloc, SUp8, 1, 64, Op::Shrink, 12, 12, false, 0);
 inst!(grow_zeroed_up1_k1, unwind 3, ob_realloc, LogAlloc, SUp1, 1, 64, Op::GrowZeroed, 8, 12, false, 0);
 inst!(grow_zeroed_dn8_k1, unwind 3, ob_realloc, LogAlloc, SDn8, 1, 64, Op::GrowZeroed, 8, 12, false, 0);
 inst!(shrink_up1_k1, unwind 3, ob_realloc, LogAlloc, SUp1, 1, 64, Op::Shrink, 12, 12, false, 0);
